@@ -10,7 +10,7 @@ from ..ctx import Ctx
 from .sqlutil import (check_window_predicate, link_rows_follow_node_deletes,
                       some_span_predicate, sql_of, table_of,
                       time_window_bounds, window_params)
-from .util import enclosing, forwards
+from .util import cguards, enclosing, forwards
 
 EXPLANATION = (
     "Cleaning is decided on the statements *extracted* from the SQLAlchemy "
@@ -170,14 +170,27 @@ def check(rep: Report, ctx: Ctx) -> None:
                          ("_max_timestamp", "max", "end_timestamp")):
         st = [x for x in ast.walk(sd.node) if isinstance(x, ast.Assign)
               and unparse(x.targets[0]) == f"self.{fld}"]
-        ok = len(st) == 1 and isinstance(st[0].value, ast.Call) and unparse(
-            st[0].value.func) == fn and sorted(unparse(a) for a in
-                                               st[0].value.args) == sorted(
-            [f"self.{fld}", f"{ev}.{src}"]) and not enclosing(
-                sd.node, st[0], (ast.If,))
+        ok = False
+        if len(st) == 1:
+            val = ctx.reach(sd).resolve(st[0].value, at=st[0])
+            gs = cguards(ctx, sd, st[0])
+            if isinstance(val, ast.Call) and unparse(val.func) == fn:
+                # x = min(x, v), unconditionally
+                ok = sorted(unparse(a) for a in val.args) == sorted(
+                    [f"self.{fld}", f"{ev}.{src}"]) and not gs
+            elif unparse(val) == f"{ev}.{src}":
+                # if v < x: x = v   (for max: if v > x) -- and nothing else
+                # decides whether this field is updated
+                lo, hi = (f"{ev}.{src}", f"self.{fld}") if fn == "min" \
+                    else (f"self.{fld}", f"{ev}.{src}")
+                ok = gs in ([("cmp", lo, "Lt", hi)], [("cmp", lo, "LtE", hi)])
         rep.ob("R11.8", f"{fld} = {fn}({fld}, span.{src})", ok, fi=sd,
                node=st[0] if st else sd.node,
-               detail=unparse(st[0])[:100] if st else "<missing>")
+               detail=(unparse(st[0])[:100] if st else "<missing>")
+               + ("" if ok or not st else
+                  f" under {[' '.join(g) for g in cguards(ctx, sd, st[0])]}"
+                  " -- every span must be able to move this end of the "
+                  "window, independently of the other end"))
     for prop_name, fld, other in (("min_timestamp", "_min_timestamp",
                                    "_max_timestamp"),
                                   ("max_timestamp", "_max_timestamp",
